@@ -11,7 +11,7 @@ import os
 
 from hypothesis import strategies as st
 
-from vlib import gen_maps, pipeline, xmap_text
+from vlib import gen_maps, pipeline, scale, xmap_text
 from vlib.core import Sub, Violation, crash_signature, req
 
 PROPERTY = "C07"
@@ -134,4 +134,7 @@ def subchecks(tier):
             sample_filter=gen_maps.short_case, required_classes=("zero-record-file", "query-without-record", "removal-checked")),
         Sub("cli", "hyp", lambda c: check(c, cli=True), strategy=lambda: strategy(max_queries=3), examples=48 if q else 600,
             shrink_budget=8, sample_filter=gen_maps.short_case),
+        Sub("huge-reference", "hyp", check, strategy=scale.huge_reference_case, examples=2 if q else 32, shrink_budget=0, skip_first=True,
+            shards=2 if q else 16, sample_filter=scale.short, time_budget_s=3000,
+            describe="a reference of 33 000-36 000 labels, molecules below, across and above label 32 767"),
     ]
